@@ -1,23 +1,71 @@
-"""Markdown table + seeded/RESULTS.json from /tmp/seedrun/summary.json (written by harness/seedreport.py) and seeded/*/meta.json."""
+"""Markdown table + seeded/RESULTS.json.
+
+   python3 harness/seedtable.py            # reads /tmp/seedrun_own/*.json (final evaluation: every seed against the check of its own
+                                           # property, harness/seedrun.py -p <own>) and the record of the evaluation of all 20 checks made
+                                           # when the seed was added (kept in seeded/RESULTS.json as `first_evaluation`)
+
+A seed's first evaluation (all 20 quick checks) is recorded once, when it is stored; the final evaluation re-runs the check of the
+seed's own property against the committed checks."""
+import glob
 import json
 import os
+import re
 
 VERIF = os.path.dirname(os.path.dirname(os.path.abspath(__file__)))
-rows = json.load(open("/tmp/seedrun/summary.json"))
-out = []
-res = []
-for r in sorted(rows, key=lambda r: r["seed"]):
-    meta = json.load(open(os.path.join(VERIF, "seeded", r["seed"], "meta.json")))
-    rnd = meta.get("round", 1)
-    own = r["own"].replace("caught: ", "")
-    if own == "MISSED":
-        own = "no alarm of its own"
-    summ = " ".join(meta["summary"].split())
-    cut = summ[:200].rsplit(" ", 1)[0] + " …" if len(summ) > 200 else summ
-    out.append("| %s | %d | %s | %s | %s |" % (r["seed"], rnd, cut.replace("|", "/"), own, ", ".join(r["others_input"]) or "–"))
-    res.append({"seed": r["seed"], "round": rnd, "own_check": own, "failing_input_also_by": r["others_input"],
-                "correspondence_only": r["others_tie"], "witness": r["witness"]})
-print("| seed | round | what the change does (needs to manifest) | own check | failing input found also by |")
-print("|------|-------|------------------------------------------|-----------|------------------------------|")
-print("\n".join(out))
-json.dump(res, open(os.path.join(VERIF, "seeded", "RESULTS.json"), "w"), indent=1)
+OWN = os.environ.get("SEEDRUN_OWN", "/tmp/seedrun_own")
+
+
+def own_verdict(sid):
+    f = os.path.join(OWN, "%s-patch.json" % sid)
+    if not os.path.exists(f):
+        return None, None
+    r = json.load(open(f))
+    pid = sid.split("-")[0]
+    own = r["checks"].get(pid, {})
+    rp = own.get("replay") or {}
+    if own.get("rc") != 1:
+        return "no alarm of its own", None
+    wit = ((rp.get("attr") or "") + " | " + (rp.get("item") or "").replace("\n", " "))[:140] if rp.get("item") else (rp.get("failing_predicate") or "")
+    if rp.get("kind") in ("input", "history"):
+        return "failing input", wit
+    if rp.get("kind") == "correspondence":
+        return "correspondence broken, no failing input found", wit
+    return str(rp.get("kind")), wit
+
+
+def main():
+    old = {r["seed"]: r for r in json.load(open(os.path.join(VERIF, "seeded", "RESULTS.json")))}
+    extra = {}
+    p = os.path.join(VERIF, "seeded", "first_evaluation_r5_r7.json")
+    if os.path.exists(p):
+        extra = json.load(open(p))
+    out, res = [], []
+    seeds = sorted((d for d in os.listdir(os.path.join(VERIF, "seeded")) if re.match(r"C\d\d-\d+$", d)),
+                   key=lambda s: (s.split("-")[0], int(s.split("-")[1])))
+    for sid in seeds:
+        meta = json.load(open(os.path.join(VERIF, "seeded", sid, "meta.json")))
+        rnd = meta.get("round", 1)
+        own, wit = own_verdict(sid)
+        o = old.get(sid, {})
+        first = o.get("first_evaluation")
+        if first is None:
+            if sid in extra:
+                first = {"alarms_of_other_checks": extra[sid]}
+            else:
+                first = {"alarms_of_other_checks": sorted(set(o.get("failing_input_also_by", []) + o.get("correspondence_only", []))),
+                         "with_failing_input": o.get("failing_input_also_by", [])}
+        if own is None:
+            own, wit = o.get("own_check", "not evaluated"), o.get("witness")
+        summ = " ".join(meta["summary"].split())
+        cut = summ[:200].rsplit(" ", 1)[0] + " …" if len(summ) > 200 else summ
+        others = first.get("alarms_of_other_checks", [])
+        out.append("| %s | %d | %s | %s | %s |" % (sid, rnd, cut.replace("|", "/"), own, ", ".join(others) or "–"))
+        res.append({"seed": sid, "round": rnd, "own_check": own, "witness": wit, "first_evaluation": first})
+    print("| seed | round | what the change does (needs to manifest) | own check (final evaluation) | other checks that raised an alarm (first evaluation) |")
+    print("|------|-------|------------------------------------------|------------------------------|------------------------------------------------------|")
+    print("\n".join(out))
+    json.dump(res, open(os.path.join(VERIF, "seeded", "RESULTS.json"), "w"), indent=1)
+
+
+if __name__ == "__main__":
+    main()
